@@ -185,13 +185,20 @@ var (
 )
 
 func vfC08Norm(err error) string {
-	s := err.Error()
-	s = vfC08reHex.ReplaceAllString(s, "H")
-	s = vfC08reNum.ReplaceAllString(s, "N")
-	if len(s) > 120 {
-		s = s[:120]
+	// Finding keys must not depend on the wording of error messages (a reworded message is
+	// not a behaviour change): only a coarse class of the failing stage is kept.
+	s := strings.ToLower(err.Error())
+	switch {
+	case strings.Contains(s, "zlib") || strings.Contains(s, "flate") || strings.Contains(s, "gzip"):
+		return "inflate-stage-error"
+	case strings.Contains(s, "lzf"):
+		return "lzf-stage-error"
+	case strings.Contains(s, "fletcher") || strings.Contains(s, "checksum"):
+		return "checksum-stage-error"
+	case strings.Contains(s, "shuffle"):
+		return "shuffle-stage-error"
 	}
-	return s
+	return "error"
 }
 
 func vfC08LenRel(got, want []byte) string {
@@ -429,7 +436,10 @@ func vfC08Point(p vfC08Pipe, n, content int, payload []byte, thorough bool, pars
 	}
 	if p.outF {
 		where = "outermost-f32"
-		full = 4300
+		full = 1100 // quick: all positions for stored chunks up to 1100 bytes
+		if thorough {
+			full = 4300
+		}
 		if thorough && len(p.items) <= 2 {
 			full = 70000
 		}
@@ -732,5 +742,5 @@ func TestVerif_C08(t *testing.T) {
 	r.Set("corrupted_variants_per_decoder", variants)
 	r.Sample(map[string]any{"pipeline": "shuffle(4)>deflate(6)>fletcher32", "length": 4096, "content": "ramp", "checked": "Remove(Apply(p))==p; core.ApplyFilters(Apply(p))==p; every stored byte ^ {01,80,FF} -> error in both decoders; every adjacent word swap -> error"})
 	r.Sample(map[string]any{"pipeline": "fletcher32>lzf", "length": 33, "content": "one-odd-byte", "checked": "every stored byte ^ every mask 01..FF -> error or the original payload, in both decoders"})
-	r.Rule(fmt.Sprintf("every (pipeline, length, content) of the listed grid: %d pipelines (all ordered selections without repetition of <=%d kinds from deflate{1,6,9}, shuffle{1,2,4,8}, fletcher32, lzf, plus the empty one) x %d lengths x 6 contents (+2 period-8192/8193 contents for lengths > 4097); a point is non-trivial when the pipeline is non-empty, the writer accepts it and (length>0 or content==zeros). Corruption: for pipelines containing fletcher32 every byte of the stored chunk (all positions when the stored chunk is <= 4300 bytes [outermost], 70000 [outermost, thorough, pipelines of <= 2 filters], 600/4300 [inner quick/thorough]; otherwise the listed position sub-grid: first 32, last 40, every 4099th [every 65521st above 100000 bytes], powers of two +-1) x masks {01,80,FF} (all 255 masks for payload length <= 33 when fletcher32 is outermost; thorough: also inner), plus every adjacent non-congruent 16-bit word transposition of the protected part where all positions are enumerated; each variant decoded by the writer's Remove and by core's ApplyFilters", len(pipes), maxLen, len(lengths)))
+	r.Rule(fmt.Sprintf("every (pipeline, length, content) of the listed grid: %d pipelines (all ordered selections without repetition of <=%d kinds from deflate{1,6,9}, shuffle{1,2,4,8}, fletcher32, lzf, plus the empty one) x %d lengths x 6 contents (+2 period-8192/8193 contents for lengths > 4097); a point is non-trivial when the pipeline is non-empty, the writer accepts it and (length>0 or content==zeros). Corruption: for pipelines containing fletcher32 every byte of the stored chunk (all positions when the stored chunk is <= 1100 bytes [outermost, quick], 4300 [outermost, thorough], 70000 [outermost, thorough, pipelines of <= 2 filters], 600/4300 [inner quick/thorough]; otherwise the listed position sub-grid: first 32, last 40, every 4099th [every 65521st above 100000 bytes], powers of two +-1) x masks {01,80,FF} (all 255 masks for payload length <= 33 when fletcher32 is outermost; thorough: also inner), plus every adjacent non-congruent 16-bit word transposition of the protected part where all positions are enumerated; each variant decoded by the writer's Remove and by core's ApplyFilters", len(pipes), maxLen, len(lengths)))
 }
